@@ -281,7 +281,12 @@ def sym_payload(H, m, pfx="pl.", variant=None):
             h._width = m.harmonic_widths.values[h.index]
             h._type = m.harmonic_types.values[h.index]
     if isinstance(m, (AnalogGenerator, Generator)):
-        m.drawn_waveform.samples = [H.int(f"{pfx}wave[{i}]", -128, 127) for i in range(32)]
+        if variant == "inplace":
+            # the samples list the module was constructed with, edited item by item
+            for i in range(32):
+                m.drawn_waveform.samples[i] = H.int(f"{pfx}wave[{i}]", -128, 127)
+        else:
+            m.drawn_waveform.samples = [H.int(f"{pfx}wave[{i}]", -128, 127) for i in range(32)]
     if isinstance(m, MultiCtl):
         for i, mp in enumerate(m.mappings.values):
             for f in ("min", "max", "controller", "flags", "future_use2", "future_use3", "future_use4", "future_use5"):
@@ -323,6 +328,8 @@ def payload_variants(cls, tier):
         return [0, 15] if tier == "quick" else list(range(16))
     if name == "VorbisPlayer":
         return [0, 1, 5] if tier == "quick" else [0, 1, 2, 5, 64]
+    if name in ("Generator", "AnalogGenerator"):
+        return [None, "inplace"]
     return [None]
 
 
